@@ -490,7 +490,7 @@ func child(scPath, tracePath string) {
 			}
 			select {
 			case <-ch:
-			case <-time.After(ttl + slack + awaitTimeout):
+			case <-time.After(awaitTimeout):
 				abort(k, "timeout awaiting verdict "+st.ID)
 			}
 		case "sleep":
